@@ -330,6 +330,13 @@ def run_check(prop, tier, seed):
                     f.write("\n## %s\n%s" % (ext, open(lp).read()[-6000:]))
         print("VIOLATION property=%s replay=%s %s" % (prop, path, why))
         rc = 1
+    elif failing and failing[0][0].startswith("probe:"):
+        cid, why = failing[0]
+        path = os.path.join(workdir, "replay_%s_%d.txt" % (prop, n))
+        with open(path, "w") as f:
+            f.write("# property %s\n# %s\n# replay: ./check %s\n" % (prop, why, prop))
+        print("VIOLATION property=%s replay=%s %s" % (prop, path, why))
+        rc = 1
     elif failing:
         cid, why = failing[0]
         dump = verbose_dump(cases_file, cid, workdir)
